@@ -237,6 +237,14 @@ func (f *Failover) Get(
 					"key", key)
 			}
 
+			if value == nil {
+				// Value that has expired longer than MaxStaleness ago is still served if update fails.
+				var errExpired ErrWithExpiredItem
+				if errors.As(err, &errExpired) {
+					value = errExpired.Value()
+				}
+			}
+
 			if value != nil && !f.config.FailHard {
 				return value, nil
 			}
